@@ -34,6 +34,18 @@ Theorem C09_mikey_marshal_bytes : forall m, wf_message m = true -> bytes_ok (mik
 Proof. exact mikey_marshal_bytes_ok. Qed.
 Print Assumptions C09_mikey_marshal_bytes.
 
+(* wf_message is exact: whatever Unmarshal produces from a byte string is well-formed, hence a parsed
+   message marshals to bytes that parse to the same message (parse ; marshal ; parse = parse) *)
+Theorem C09_mikey_parsed_wf : forall b m,
+  bytes_ok b -> mikey_unmarshal b = Ok m -> wf_message m = true.
+Proof. exact mikey_unmarshal_wf. Qed.
+Print Assumptions C09_mikey_parsed_wf.
+
+Theorem C09_mikey_reparse : forall b m,
+  bytes_ok b -> mikey_unmarshal b = Ok m -> mikey_unmarshal (mikey_marshal m) = Ok m.
+Proof. exact mikey_reparse. Qed.
+Print Assumptions C09_mikey_reparse.
+
 (* Determinism / purity: Unmarshal and Marshal are functions of their argument alone (the model has no other
    input: no map iteration, no clock, no global state is read by pkg/mikey; the harness checks the same on
    the implementation, including that neither function writes to its argument). *)
@@ -78,6 +90,12 @@ Example C09_ex_padding : mikey_unmarshal (mikey_marshal ex_msg ++ [0]) = Ok ex_m
 Proof. vm_compute. reflexivity. Qed.
 Example C09_ex_trailing : mikey_unmarshal (mikey_marshal ex_msg ++ [1; 0]) = Err.
 Proof. vm_compute. reflexivity. Qed.
+(* observation (not a violation of C09): the rule in Message.Unmarshal is `len(buf)-n > 1 && buf[n] != 0`, so a
+   single trailing byte of ANY value and any number of trailing bytes after a 0x00 are accepted as well *)
+Example C09_ex_trailing_lax :
+  mikey_unmarshal (mikey_marshal ex_msg ++ [7]) = Ok ex_msg /\
+  mikey_unmarshal (mikey_marshal ex_msg ++ [0; 9; 9; 9]) = Ok ex_msg.
+Proof. vm_compute. split; reflexivity. Qed.
 
 (* truncation: every proper prefix of the marshalled example is rejected with an error (never a panic) *)
 Example C09_ex_truncated :
